@@ -6,14 +6,17 @@ open Kdf.Model.Derived
 /-- the value the text gives to a key: the last row with that key -/
 def lastVal (rows : List Row) (k : Bytes) : Option Bytes :=
   (rows.reverse.find? (·.key == k)).map (·.val)
-/-- no key starts with a dot (a leading dot means "no fallback" to `lookup_dir_attr`) -/
-def NoLeadingDot (rows : List Row) : Prop := ∀ r ∈ rows, r.key.head? ≠ some 46
 
-theorem stripDot_of_noDot (k : Bytes) (h : k.head? ≠ some 46) : stripDot k = k := by
-  unfold stripDot
-  split
-  · simp at h
-  · rfl
+theorem slotOf_dot {α} (s : Store α) (k : Bytes) (hk : leadingDot k = true) :
+    slotOf s k = .blocked := by
+  unfold slotOf
+  simp [hk]
+
+/-- a row whose key starts with a dot is refused (`create_attr_path`) and changes nothing -/
+theorem addRow_dot_refused (c : Ctx) (r : Row) (hk : leadingDot r.key = true) :
+    addRow c r = .done .system c := by
+  unfold addRow
+  rw [slotOf_dot _ _ hk]
 
 /-- frame: lines and raw equal, inst grows -/
 def Frame (c c' : Ctx) : Prop :=
@@ -69,22 +72,34 @@ theorem addRow_raw (c : Ctx) (r : Row) (st : Status) (c' : Ctx) (h : addRow c r 
       | (cases h; exact (addInst_frame _ _).2.1)
       | (have h2 := linesPost_frame _ _ _ _ _ h; exact h2.2.1.trans (addInst_frame _ _).2.1)
 
-theorem addRow_ok (c : Ctx) (r : Row) (c' : Ctx) (hk : r.key.head? ≠ some 46)
+theorem addRow_ok (c : Ctx) (r : Row) (c' : Ctx)
     (h : addRow c r = .done .ok c') :
     c'.lines = c.lines.put r.key r.val ∧ c'.inst.contains "lines" = true ∧
-    (∀ d, c.inst.contains d = true → c'.inst.contains d = true) := by
-  unfold addRow at h
-  split at h
-  · cases h
-  · cases h
-  · simp only [stripDot_of_noDot _ hk, ite_self] at h
+    (∀ d, c.inst.contains d = true → c'.inst.contains d = true) ∧
+    leadingDot r.key = false := by
+  have hk : leadingDot r.key = false := by
+    cases hd : leadingDot r.key with
+    | false => rfl
+    | true =>
+      rw [addRow_dot_refused c r hd] at h
+      cases h
+  refine ⟨?_, ?_, ?_, hk⟩
+  all_goals
+    unfold addRow at h
     split at h
     · cases h
-      have h1 := addInst_frame { c with lines := c.lines.put r.key r.val } "lines"
-      exact ⟨h1.1, addInst_self _ _, h1.2.2⟩
-    · have h2 := linesPost_frame _ _ _ _ _ h
-      have h1 := addInst_frame { c with lines := c.lines.put r.key r.val } "lines"
-      exact ⟨h2.1.trans h1.1, h2.2.2 _ (addInst_self _ _), fun d hd => h2.2.2 d (h1.2.2 d hd)⟩
+    · cases h
+    · simp only at h
+      split at h
+      · cases h
+        have h1 := addInst_frame { c with lines := c.lines.put r.key r.val } "lines"
+        first | exact h1.1 | exact addInst_self _ _ | exact h1.2.2
+      · have h2 := linesPost_frame _ _ _ _ _ h
+        have h1 := addInst_frame { c with lines := c.lines.put r.key r.val } "lines"
+        first
+          | exact h2.1.trans h1.1
+          | exact h2.2.2 _ (addInst_self _ _)
+          | exact fun d hd => h2.2.2 d (h1.2.2 d hd)
 
 theorem find_put_self {α} (s : Store α) (k : Bytes) (a : α) : (s.put k a).find k = some a := by
   unfold Store.put Store.find
@@ -154,33 +169,53 @@ theorem addRows_raw (rows : List Row) : ∀ (c : Ctx) (st : Status) (c' : Ctx),
     · exact addRow_raw _ _ _ _ h
 
 theorem addRows_ok (rows : List Row) : ∀ (c c' : Ctx),
-    addRows c rows = .done .ok c' → NoLeadingDot rows →
+    addRows c rows = .done .ok c' →
     (∀ k, c'.lines.find k = match lastVal rows k with
                              | some v => some v
                              | none => c.lines.find k) ∧
     (rows ≠ [] → c'.inst.contains "lines" = true) ∧
-    (∀ d, c.inst.contains d = true → c'.inst.contains d = true) := by
+    (∀ d, c.inst.contains d = true → c'.inst.contains d = true) ∧
+    (∀ r ∈ rows, leadingDot r.key = false) := by
   induction rows with
   | nil =>
-    intro c c' h _
+    intro c c' h
     unfold addRows at h; cases h
     simp [lastVal]
   | cons r t ih =>
-    intro c c' h hnd
-    have hr : r.key.head? ≠ some 46 := hnd r (List.mem_cons_self ..)
-    have ht : NoLeadingDot t := fun x hx => hnd x (List.mem_cons_of_mem _ hx)
+    intro c c' h
     unfold addRows at h
     split at h
     · rename_i c1 h1
-      have ⟨a1, a2, a3⟩ := addRow_ok _ _ _ hr h1
-      have ⟨b1, b2, b3⟩ := ih _ _ h ht
-      refine ⟨?_, fun _ => b3 _ a2, fun d hd => b3 d (a3 d hd)⟩
+      have ⟨a1, a2, a3, a4⟩ := addRow_ok _ _ _ h1
+      have ⟨b1, b2, b3, b4⟩ := ih _ _ h
+      refine ⟨?_, fun _ => b3 _ a2, fun d hd => b3 d (a3 d hd), ?_⟩
+      rotate_left
+      · intro x hx
+        rcases List.mem_cons.mp hx with hx | hx
+        · rw [hx]; exact a4
+        · exact b4 x hx
       intro k
       rw [b1 k, lastVal_cons, a1, find_put]
       cases lastVal t k <;> simp
       split <;> simp
     · rename_i hno
       exact absurd h (hno c')
+
+theorem lastVal_some_mem (rows : List Row) (k v : Bytes) (h : lastVal rows k = some v) :
+    ∃ r ∈ rows, r.key = k := by
+  unfold lastVal at h
+  cases hf : List.find? (fun x => x.key == k) rows.reverse with
+  | none => rw [hf] at h; cases h
+  | some x =>
+    have h1 := List.find?_some hf
+    have h2 := List.mem_of_find?_eq_some hf
+    exact ⟨x, List.mem_reverse.mp h2, by simpa using h1⟩
+
+/-- an accepted text has no row whose key starts with a dot -/
+theorem setRaw_ok_noDot (c : Ctx) (b : Bytes) (c' : Ctx) (h : setRaw c b = .done .ok c') :
+    ∀ r ∈ rowsOf b, leadingDot r.key = false := by
+  unfold setRaw at h
+  exact (addRows_ok _ _ _ h).2.2.2
 
 /-- whatever the outcome, the raw attribute holds the text that was set -/
 theorem setRaw_raw (c : Ctx) (b : Bytes) :
@@ -195,34 +230,37 @@ theorem setRaw_raw (c : Ctx) (b : Bytes) :
 
 /-- if the text is accepted, the parsed lines are exactly its key/value list (last row of a
 key wins) -/
-theorem setRaw_lines (c : Ctx) (b : Bytes) (c' : Ctx) (hnd : NoLeadingDot (rowsOf b))
+theorem setRaw_lines (c : Ctx) (b : Bytes) (c' : Ctx)
     (h : setRaw c b = .done .ok c') :
-    ∀ k, k.head? ≠ some 46 → c'.lines.find k = lastVal (rowsOf b) k := by
-  intro k _
+    ∀ k, c'.lines.find k = lastVal (rowsOf b) k := by
+  intro k
   unfold setRaw at h
-  have h1 := (addRows_ok _ _ _ h hnd).1 k
+  have h1 := (addRows_ok _ _ _ h).1 k
   rw [h1]
   cases lastVal (rowsOf b) k <;> simp [Store.find]
 
 /-- … and `kdump_vmcoreinfo_line` returns exactly that value -/
-theorem setRaw_vline (c : Ctx) (b : Bytes) (c' : Ctx) (hnd : NoLeadingDot (rowsOf b))
-    (h : setRaw c b = .done .ok c') (k : Bytes) (hk : k.head? ≠ some 46) :
+theorem setRaw_vline (c : Ctx) (b : Bytes) (c' : Ctx)
+    (h : setRaw c b = .done .ok c') (k : Bytes) :
     vline c' k = match lastVal (rowsOf b) k with
                  | some v => (.ok, v)
                  | none => (.nodata, []) := by
-  have hl := setRaw_lines c b c' hnd h k hk
+  have hl := setRaw_lines c b c' h k
+  have hnd := setRaw_ok_noDot c b c' h
   unfold setRaw at h
-  have h2 := (addRows_ok _ _ _ h hnd).2.1
+  have h2 := (addRows_ok _ _ _ h).2.1
   unfold vline
-  rw [stripDot_of_noDot k hk, hl]
+  rw [hl]
   cases hv : lastVal (rowsOf b) k with
   | none => simp
   | some v =>
     have hne : rowsOf b ≠ [] := by
       intro he; rw [he] at hv; simp [lastVal] at hv
     have h3 := h2 hne
+    have ⟨r, hr, hrk⟩ := lastVal_some_mem _ _ _ hv
+    have hkd : leadingDot k = false := by rw [← hrk]; exact hnd r hr
     simp at h3
-    simp [h3]
+    simp [h3, hkd]
 
 /-- `kdump_vmcoreinfo_raw` returns the text -/
 theorem setRaw_vraw (c : Ctx) (b : Bytes) (c' : Ctx) (st : Status) (h : setRaw c b = .done st c') :
@@ -251,12 +289,12 @@ theorem clearRaw_views (c : Ctx) :
 
 /-- a row whose key is a directory of the tree built so far (some earlier key lies below
 it) is refused and changes nothing -/
-theorem addRow_dir_refused (c : Ctx) (r : Row) (hk : r.key.head? ≠ some 46)
+theorem addRow_dir_refused (c : Ctx) (r : Row) (hk : leadingDot r.key = false)
     (hnew : c.lines.find r.key = none) (hdir : c.lines.isDir r.key = true) :
     addRow c r = .done .invalid c := by
   have hs : slotOf c.lines r.key = .dir := by
     unfold slotOf
-    simp [stripDot_of_noDot _ hk, hnew, hdir]
+    simp [hk, hnew, hdir]
   unfold addRow
   rw [hs]
 
